@@ -31,7 +31,7 @@ type ConnSpec struct {
 	Expect   int            // plaintext frames to read before End (when Read == "")
 	Read     string         // "" = read Expect frames | "all" = until EOF/error | "none"
 	End      string         // "close" (default) | "reset" | "stay" | "half" (send half a frame, then stay)
-	TLS      string         // "" | "listener" | "listener-nohello" | "plain-to-tls"
+	TLS      string         // "" | "listener" | "listener-nohello" | "listener-halfhello" | "plain-to-tls"
 	TLSCfg   *tls.Config
 	RecvBuf  int
 	WaitNote string
@@ -182,6 +182,9 @@ func runClient(w *World, ci int, name string, cs *ConnSpec) {
 			cl.Close()
 			return
 		}
+	case "listener-halfhello":
+		// the first bytes of a TLS handshake record, then silence
+		_ = cl.Send([]byte{0x16, 0x03, 0x01, 0x02, 0x00, 0x01, 0x00})
 	case "listener-nohello":
 		// connect and send nothing
 	}
